@@ -115,6 +115,10 @@ int __wrap_stat(const char* path, struct stat* st) {
   int rc = fs().stat(path, true, &sb);
   if (rc) return fail(rc);
   fillStat(sb, st);
+  {
+    simfs::InodeP ino;
+    if (fs().lookup(path, true, &ino) == 0 && ino->zeroStat) memset(st, 0, sizeof(*st));
+  }
   return 0;
 }
 
